@@ -140,7 +140,13 @@ def check_forwarder(ctx, prog):
     st.ghost['cursor'] = start
     recv = Opaque('broadcast-receiver', ident='rx')
     target = Agg('ActorRef', (Agg('ActorCell', (Opaque('props', ident='subscriber'),)), Agg('PhantomData', ())))
-    outs = I.run_body(st, body, [recv, Opaque('converter', ident='converter'), target])
+    args = [recv, Opaque('converter', ident='converter'), target]
+    # parameters the pinned tree does not have: an arbitrary shared counter / flag each (any value)
+    for (an, aty) in list(getattr(body, 'args', []))[3:]:
+        oid = 'arg_' + str(an).strip('_')
+        st.objs[oid] = {'w': I.fresh_int('arg_' + str(an).strip('_'), 'usize', st).t}
+        args.append(BoxV(st.alloc(Obj('atomic', oid)), 'Arc') if 'Arc' in str(aty) else Obj('atomic', oid))
+    outs = I.run_body(st, body, args)
     if len(outs) != 1 or outs[0].kind != 'ret':
         raise Inconclusive('OutputPortSubscription::new did not return normally')
     st = outs[0].st
@@ -237,17 +243,28 @@ def check_send(ctx, prog):
 
     @I.model(r'(^|::)broadcast::Sender::<.*>::receiver_count$', 'broadcast::Sender::receiver_count (any value)')
     def m_rc(I, st, f, args, fr):
-        n = I.fresh_int('receivers', 'usize', st)
-        st.ghost['receivers'] = n
-        return I.ret(st, n)
+        return I.ret(st, st.ghost['receivers'])
 
     @I.model(r'(^|::)broadcast::Sender::<.*>::send$', 'broadcast::Sender::send (recorded)')
     def m_bsend(I, st, f, args, fr):
         st.emit('PUBLISH', args[1])
         return I.ret(st, models_std.ok(I.mk_int(1, 'usize')))
     st = State()
+    # how many receivers the broadcast channel has is a fact of the environment, whether or not the code asks for it
+    st.ghost['receivers'] = I.fresh_int('receivers', 'usize', st)
     d = prog.crate.struct('OutputPort', 'port/output.rs')
-    port = Agg('OutputPort', [Opaque('broadcast-sender', ident='tx') if k == 'tx' else Opaque('subs') for k in d['fields']])
+
+    def field_value(k):
+        if k == 'tx':
+            return Opaque('broadcast-sender', ident='tx')
+        if k == 'subscriptions':
+            return Opaque('subs')
+        # a field the pinned tree does not have: an arbitrary shared counter / flag (any value) - whatever bookkeeping it is meant to mirror, the claim below is
+        # about the channel's real receivers
+        oid = 'fld_' + k
+        st.objs[oid] = {'w': I.fresh_int('field_' + k, 'usize', st).t}
+        return BoxV(st.alloc(Obj('atomic', oid)), 'Arc')
+    port = Agg('OutputPort', [field_value(k) for k in d['fields']])
     msg = Opaque('the-message', ident='the-message')
     outs = I.run_body(st, body, [Ref(st.alloc(port), ()), msg])
     ctx.absorb(I)
